@@ -272,6 +272,12 @@ class Goal:
     def distance_goal(self, state):
         return max(0.0, self.space.distance(state, self.centre) - self.radius)
 
+    # The goal object also happens to be callable (user classes often are) and says yes to
+    # everything: the documented interface never calls it, so this must not matter - in
+    # particular not as a fallback when `is_satisfied` fails.
+    def __call__(self, *args, **kwargs):
+        return True
+
     def sample_goal(self):
         k = self.k
         self.k += 1
@@ -324,6 +330,7 @@ def run_scenario(base, geometric, sc):
         out["outcome"] = "error"
         out["message"] = str(e)
     out["validity_calls"] = vfault.calls
+    out["goal_sample_calls"] = goal.k
     out["faults_fired"] = vfault.fired + (gfault.fired if gfault else 0)
     out["wall_s"] = time.time() - t0
     return out
